@@ -868,3 +868,15 @@ M("C04", "revert-fix-titan-consult-url-with-params", "breaking",
 M("C13", "eof-keeps-connection-open", "breaking",
   [(CP, "GeminiClientProtocol.eof_received", "        return False  # Don't keep connection open\n", "        return True\n")],
   "E7:client.protocol:GeminiClientProtocol.eof_received:keeps-half-closed-connection")
+M("C07", "scan-from-old-length", "breaking",
+  [(P, DR, "        self.buffer += data\n", "        scan_from = len(self.buffer)\n        self.buffer += data\n"),
+   (P, DR, "            if CRLF in self.buffer:\n                url_line, remaining = self.buffer.split(CRLF, 1)\n", "            if self.buffer.find(CRLF, scan_from) >= 0:\n                url_line, remaining = self.buffer.split(CRLF, 1)\n")],
+  "S3:server.protocol:GeminiServerProtocol.data_received:pre-append-read")
+M("C07", "benign-scan-from-old-length-minus-one", "benign",
+  [(P, DR, "        self.buffer += data\n", "        scan_from = len(self.buffer)\n        self.buffer += data\n"),
+   (P, DR, "            if CRLF in self.buffer:\n                url_line, remaining = self.buffer.split(CRLF, 1)\n", "            if self.buffer.find(CRLF, max(0, scan_from - 1)) >= 0:\n                url_line, remaining = self.buffer.split(CRLF, 1)\n")])
+M("C09", "allow-presence-on-family-subset", "breaking",
+  [(MW, "AccessControl._is_allowed", "        if self.allow_networks:\n            for network in self.allow_networks:\n", "        same_family = [n for n in self.allow_networks if n.version == ip_obj.version]\n        if same_family:\n            for network in same_family:\n")],
+  "I1:server.middleware:AccessControl._is_allowed:allow-list-presence")
+M("C09", "benign-iterate-family-subset-only", "benign",
+  [(MW, "AccessControl._is_allowed", "        if self.allow_networks:\n            for network in self.allow_networks:\n", "        if self.allow_networks:\n            for network in [n for n in self.allow_networks if n.version == ip_obj.version]:\n")])
